@@ -306,6 +306,21 @@ pub fn gen(seed: u64, thorough: bool) {
             emit(&t);
         }
     }
+    // every power of two and the doubles next to it, written with 17 and 16 significant digits (the shortest texts that
+    // identify them: just below / just above the power, where the 54-bit product of the second fast path is all ones or all zeros)
+    for k in (-1074i32..=1023).step_by(if thorough { 1 } else { 2 }) {
+        let x = 2f64.powi(k);
+        for y in [x, f64::from_bits(x.to_bits().wrapping_sub(1)), f64::from_bits(x.to_bits() + 1)] {
+            if !y.is_finite() || y == 0.0 {
+                continue;
+            }
+            emit(format!("{:.16e}", y).as_bytes());
+            if k % 3 == 0 {
+                emit(format!("{:.15e}", y).as_bytes());
+                emit(format!("-{:e}", y).as_bytes());
+            }
+        }
+    }
     // 19/20-digit integer boundaries
     for base in [9223372036854775807u128, 18446744073709551615u128, 9999999999999999999u128, 10000000000000000000u128, 99999999999999999999u128] {
         for d in 0..6u128 {
